@@ -5,8 +5,10 @@ The model (Model.lean) is the token-level composite `_lex ∘ format` (`toks*`),
 -/
 import Verif.C15.Lemmas
 import Verif.C15.Canon
+import Verif.C15.Parse
 
 namespace Verif.C15
+set_option linter.unusedSimpArgs false
 
 /-! ## Documentation strings, character level -/
 
@@ -159,5 +161,51 @@ theorem expand_list_shapes :
     ∧ expandTerm [] (.cons none .nil .closed) = []
     ∧ expandTerm [] (.cons none .nil .opn) = [] := by
   simp [expandTerm, expandItems, expandEnd, expandVal, restPath, Items.length, Items.isNil]
+
+
+/-! ## Parsing what was formatted (token level) -/
+
+-- FULL STATEMENT (not proved): for every well-formed value `v` (`wfVal v`), all sufficiently large
+-- fuel `n` and every `rest` that does not start with `&`:
+--   parseConj n (toksVal v ++ rest) = .ok (canonVal v, rest)
+-- and for every item list `xs` with balanced environments:  parseFile (xs.flatMap toksItem) = .ok (xs.map canonItem).
+-- Missing: the mutual induction through AVMs (`mkAVM (features fs) = canonFeats fs`) and lists.
+-- These statements are what the correspondence run checks on every generated entity
+-- (model `parsed` = implementation `parsed`, and `parsed` is compared with `orig` by the oracle).
+
+/-- "type definitions ... whose bodies nest conjunctions ..., coreferences, strings, regexes and
+documentation strings": proved part — a conjunction of any number of leaf terms (identifiers,
+strings, regexes, coreferences, each with or without a docstring), written as tokens and followed
+by anything that does not continue the conjunction, is parsed back to exactly those terms and
+exactly that rest.  Hypothesis of the partial result: `allLeaves` (no AVM or list among the terms). -/
+theorem parse_toks_conjunction_partial (t : Term) (ts : Terms) (ht : isLeaf t = true)
+    (hts : allLeaves ts = true) (n : Nat) (hn : n ≥ 2 * (ts.toList.length + 1)) (rest : List Tok)
+    (hr : noAmp rest) :
+    parseTerms n (toksTerms (.cons t ts) ++ rest) = .ok (t :: ts.toList, rest) :=
+  parseTerms_leaves ts t ht hts n hn rest hr
+
+/-- the hypotheses are satisfiable, and the result is not vacuous: `a & "s" & #x` before a dot. -/
+example : parseTerms 6 (toksTerms (.cons (.ident none ['a']) (.cons (.str (some ['d']) ['s'])
+      (.cons (.coref none ['x']) .nil))) ++ [.dot])
+    = .ok ([.ident none ['a'], .str (some ['d']) ['s'], .coref none ['x']], [.dot]) :=
+  parseTerms_leaves _ _ rfl rfl 6 (by simp [Terms.toList]) [.dot] trivial
+
+/-- F44 (model level): the second formatting differs from the first when a feature value is a
+one-term Conjunction around a one-feature AVM — `[ A [ B x ] ]` comes back as `[ A.B x ]`. -/
+theorem second_format_differs_counterexample :
+    let x : Val := .term (.ident none ['x'])
+    let t : Term := .avm none (.cons ['A'] (.conj (.cons (.avm none (.cons ['B'] x .nil)) .nil)) .nil)
+    toksTerm (canonTerm t) ≠ toksTerm t := by
+  simp [toksTerm, toksFeats, toksFeat, toksFeatsC, toksVal, toksTerms, toksAmp, canonTerm, canonFeats,
+    canonFeat, canonVal, docTok, pathToks]
+
+/-- F43 (model level): the docstring of a passed-through one-feature AVM is not among the tokens
+that `format` writes. -/
+theorem hidden_docstring_counterexample :
+    let x : Val := .term (.ident none ['x'])
+    let t : Term := .avm none (.cons ['A'] (.term (.avm (some ['d']) (.cons ['B'] x .nil))) .nil)
+    Tok.doc ['d'] ∉ toksTerm t := by
+  simp [toksTerm, toksFeats, toksFeat, toksFeatsC, toksVal, toksTerms, toksAmp, canonTerm, canonFeats,
+    canonFeat, canonVal, docTok, pathToks]
 
 end Verif.C15
